@@ -1650,7 +1650,8 @@ impl TInputProtocol for TCompactInputProtocol<&mut Bytes> {
     #[inline]
     fn read_bytes(&mut self) -> Result<Bytes, ThriftException> {
         let size = self.read_varint::<u32>()?;
-        Ok(self.trans.split_to(size as usize))
+        let size = super::check_wire_len(size as i64, self.trans.len())?;
+        Ok(self.trans.split_to(size))
     }
 
     #[inline]
@@ -1660,6 +1661,7 @@ impl TInputProtocol for TCompactInputProtocol<&mut Bytes> {
                 std::slice::from_raw_parts(ptr, len)
             }))
         } else {
+            let len = super::check_wire_len(len as i64, self.trans.len())?;
             Ok(self.trans.split_to(len))
         }
     }
@@ -1679,7 +1681,8 @@ impl TInputProtocol for TCompactInputProtocol<&mut Bytes> {
 
     #[inline]
     fn read_faststr(&mut self) -> Result<FastStr, ThriftException> {
-        let size = self.read_varint::<u32>()? as usize;
+        let size = self.read_varint::<u32>()?;
+        let size = super::check_wire_len(size as i64, self.trans.len())?;
         let bytes = self.trans.split_to(size);
         unsafe { Ok(FastStr::from_bytes_unchecked(bytes)) }
     }
@@ -1763,7 +1766,8 @@ impl TInputProtocol for TCompactInputProtocol<&mut Bytes> {
 
     #[inline]
     fn read_bytes_vec(&mut self) -> Result<Vec<u8>, ThriftException> {
-        let size = self.read_varint::<u32>()? as usize;
+        let size = self.read_varint::<u32>()?;
+        let size = super::check_wire_len(size as i64, self.trans.len())?;
 
         Ok(self.trans.split_to(size).into())
     }
